@@ -210,6 +210,8 @@ pub fn run(out: &mut Out, tier: &str, seed: u64, corpus: Option<&str>, prop: &st
                 // a consistent file: permissive == strict
                 emit(out, false, true, exact, &bytes, "consistent_permissive");
                 emit(out, false, true, None, &bytes, "nolen_permissive");
+                // the same without the magic bytes in the stream: file_len still counts them (documented)
+                if i % 3 == 0 { emit(out, true, true, exact, &bytes[4..], "consistent_permissive_skip_magic"); emit(out, true, true, fl, &b2[4..], "defect_skip_magic"); }
             }
             _ => {
                 let permissive = rng.chance(1, 3);
@@ -230,6 +232,23 @@ pub fn run(out: &mut Out, tier: &str, seed: u64, corpus: Option<&str>, prop: &st
                 }
             }
         }
+    }
+    // small surfaces whose mip levels are a few bytes long: a file length that is off by the 4 magic bytes meets another guess
+    for (fmt, bpp) in [(Format::R8_UNORM, 1u64), (Format::R8G8B8A8_UNORM, 4), (Format::B5G6R5_UNORM, 2), (Format::R16G16_UNORM, 4)] {
+        for w in 1..=8u32 { for hh in 1..=6u32 { for mips in [false, true] {
+            if !thorough && (w + hh) % 2 == 1 && bpp != 1 { continue; }
+            let mut h = Header::new_image(w, hh, fmt);
+            if mips { h = h.with_mipmap_count(2); }
+            let mut bytes = Vec::new();
+            h.write(&mut bytes).unwrap();
+            let Some(dl) = data_len(&h) else { continue; };
+            let exact = bytes.len() as u64 + dl;
+            for delta in [-4i64, 0, 4] {
+                let fl = Some((exact as i64 + delta) as u64);
+                emit(out, true, true, fl, &bytes[4..], "small_skip_magic_permissive");
+                emit(out, false, true, fl, &bytes, "small_permissive");
+            }
+        } } }
     }
     // fully random raw headers with boundary-biased words
     let nr = if thorough { 20000 } else { 1500 };
